@@ -54,6 +54,10 @@ type DB struct {
 	// goes to ("" for flush): faults that do not depend on the order in which
 	// the caller writes.
 	FaultAt func(op, bucket string) error
+	// Yield, if set, is called before every put / delete / flush: a
+	// scheduling point for concurrent phases (another goroutine's commit can
+	// land between two writes of this one)
+	Yield func(site string)
 
 	Flushes, Puts, Dels, Cancels int
 }
@@ -117,6 +121,9 @@ func (db *DB) CreateBucket(name []byte) (chain.DBBucket, error) {
 
 // Flush implements chain.DB.
 func (db *DB) Flush() error {
+	if db.Yield != nil {
+		db.Yield("disk.flush")
+	}
 	if db.Fault != nil {
 		if err := db.Fault("flush"); err != nil {
 			return err
@@ -185,6 +192,9 @@ func (b *bucket) Get(key []byte) []byte {
 }
 
 func (b *bucket) Put(key, value []byte) error {
+	if b.db.Yield != nil {
+		b.db.Yield("disk.put")
+	}
 	if !b.db.exists(b.name) {
 		return errors.New("bucket does not exist")
 	}
@@ -206,6 +216,9 @@ func (b *bucket) Put(key, value []byte) error {
 }
 
 func (b *bucket) Delete(key []byte) error {
+	if b.db.Yield != nil {
+		b.db.Yield("disk.delete")
+	}
 	if !b.db.exists(b.name) {
 		return errors.New("bucket does not exist")
 	}
